@@ -34,10 +34,14 @@ def build_replay(repo, work):
         shutil.copy(os.path.join(repo, 'Cargo.lock'), os.path.join(rdir, 'Cargo.lock'))
     env = dict(os.environ)
     env['CARGO_NET_OFFLINE'] = 'true'
-    env['CARGO_TARGET_DIR'] = os.path.join(work, 'target-replay')
+    shared = os.path.join(krun.WORK, '_replay_target')  # one build cache for all properties (cargo locks it)
+    env['CARGO_TARGET_DIR'] = shared
     env.pop('RUSTUP_TOOLCHAIN', None)
     p = subprocess.run(['cargo', 'build', '--offline', '--release', '-q'], cwd=rdir, env=env, capture_output=True, text=True)
-    binp = os.path.join(work, 'target-replay', 'release', 'wrv-replay')
+    binp0 = os.path.join(shared, 'release', 'wrv-replay')
+    binp = os.path.join(work, 'wrv-replay-bin')
+    if p.returncode == 0 and os.path.exists(binp0):
+        shutil.copy(binp0, binp)
     ok = p.returncode == 0 and os.path.exists(binp)
     _built[key] = (binp if ok else None, p.stderr[-800:])
     return _built[key]
